@@ -101,6 +101,13 @@ CHECKS = {
         "covers a read failing inside the transform program.",
    note="reference = same tree with the entry deleted; single hashing thread for reproducible ordinals; group shapes compared (the printed hash of a pass-through singleton may differ)",
    tech="TLC model checking of the staged pipeline with faults + syscall fault enumeration on the real binary (differential against the fault-free run)"),
+ "C07": dict(cat="model_checking", sec="5 C07",
+   text="Transform.tla models the handle life cycle of --transform (stdin | $IN original | $IN temporary copy; stdout | $OUT pipe | --in-place) and what each handle deletes on drop; TLC checks "
+        "Unmodified and TempsGone over the product of I/O modes and program behaviours (the model with the pinned drop semantics exhibits the deletion repaired by the fix commit). The real "
+        "binary runs every mode x group options and every dedupe operation with --dry-run under the shim (inherited by the transform programs): no mutating call may touch a path of the tree, "
+        "inventories incl. mtimes of files and directories must be equal before/after, the private temp directory must be empty afterwards.",
+   note="temp/cache/home directories are private scratch dirs outside the tree; -o points outside the tree",
+   tech="TLC model checking of the handle life cycle + syscall-level observation of real runs (shim) with inventories"),
 }
 
 def main():
